@@ -12,12 +12,12 @@ RULE = ('shapes = {RTS/CTS traced on the originator, RTS/CTS traced on the respo
         '{1,2,all} x latency profiles {<=1 ms, <=5 ms}, plus failing transfers against a scripted peer (abort on RTS / after the first data packet, CTS then silence, inbound session abandoned / aborted / half sent) traced on the real stack; one baseline run per shape counts the N source-line events the traced job thread executes '
         'in repository code during the transfer; then EVERY k in 1..N: the thread is parked at its k-th line for a hold in {0.2, 1, 5 ms} of virtual '
         'time while frame reception on the same stack goes on (exhaustive for one pre-emption); plus sampled runs with two pre-emptions (same or '
-        'both job threads) and, in the thorough tier, EVERY pair of pre-emption points of one thread for the smallest connection-mode shapes; oracle = same outcome as the baseline: payload delivered intact exactly once, tables empty/pools full 8 s later, job '
+        'both job threads), the CONVERSE for the main shapes (frames are handled by a controlled receive thread of their own, which is suspended at EVERY source line of its handlers in turn for 0.2..60 ms while the job thread of the same stack is made to run passes -- an unrelated one-shot timer is added at the hold), and, in the thorough tier, EVERY pair of pre-emption points of one thread for the smallest connection-mode shapes; oracle = same outcome as the baseline: payload delivered intact exactly once, tables empty/pools full 8 s later, job '
         'threads alive and parked; a case = one (shape, hold) with all its k; non-trivial = the hold overlapped a frame reception at least once; '
         'distinct = shape x hold')
-ASSUMPTIONS = ['pre-emption granularity is the source line (sys.settrace line events in the job thread only); frame handlers run to completion',
+ASSUMPTIONS = ['pre-emption granularity is the source line (sys.settrace line events in the job thread, or in the receive thread for the converse shapes); in the job-thread shapes frame handlers run to completion',
                'the k-th line event is counted from the submission of the transfer']
-MIN_OBS = {'preempted_runs': {'quick': 4000, 'thorough': 60000}, 'distinct_lines_max': 1, 'holds_overlapping_reception': {'quick': 500, 'thorough': 8000}}
+MIN_OBS = {'preempted_runs': {'quick': 4000, 'thorough': 60000}, 'rx_preempted_runs': {'quick': 5000, 'thorough': 20000}, 'distinct_lines_max': 1, 'holds_overlapping_reception': {'quick': 500, 'thorough': 8000}}
 
 J_DIR = os.path.realpath(os.path.join(REPO, 'j1939')) + os.sep
 
@@ -71,6 +71,18 @@ def cases(tier, seed):
             for hold in (((0.005,) if mode == 'x_abort_at_t3' else (0.001,)) if tier == 'quick' else (0.0002, 0.001, 0.005)):
                 out.append(dict(kind='exhaustive', layer=layer, mode=mode, role='orig', w=2, lat=(0.0001, 0.001), hold=hold, size=unit * 4 - 2,
                                 seed=seed * 131 + len(out)))
+    # the converse: the RECEIVE thread is suspended at every source line of its frame handlers in turn while the job thread (and the rest of the
+    # system) keeps running -- the other way round of "wherever the OS suspends the background thread relative to the thread that feeds frames in"
+    for layer in ('j1939-21', 'j1939-22'):
+        unit = 60 if layer == 'j1939-22' else 7
+        for mode, role in (('cmdt', 'orig'), ('cmdt', 'resp'), ('bam', 'resp'), ('cmdt2', 'orig'), ('cmdt_chain', 'orig')):
+            for w in ((1, 255) if mode != 'bam' else (1,)):
+                for hold in ((0.001, 0.06) if tier == 'quick' else (0.0002, 0.001, 0.005, 0.06)):
+                    out.append(dict(kind='exhaustive', thread='rx', layer=layer, mode=mode, role=role, w=w, lat=(0.0001, 0.001), hold=hold,
+                                    size=unit * (3 if mode != 'cmdt_chain' else 2) - 2, seed=seed * 131 + len(out)))
+        for mode in ('x_abort_after_dt', 'x_cts_then_silent', 'x_in_abort', 'x_in_half'):
+            out.append(dict(kind='exhaustive', thread='rx', layer=layer, mode=mode, role='orig', w=2, lat=(0.0001, 0.001), hold=0.001 if tier == 'quick' else 0.005,
+                            size=unit * 4 - 2, seed=seed * 131 + len(out)))
     if tier == 'thorough':
         # every PAIR of pre-emption points (same thread) for the smallest shapes, split into slices of the first point
         for layer in ('j1939-21', 'j1939-22'):
@@ -97,6 +109,9 @@ def one_run(case, plan, seed):
     counters = {}
     info = dict(lines={}, overlap=0, where=[])
 
+    rx = case.get('thread') == 'rx'        # pre-empt the receive thread (frame handler suspended, job thread runs) instead of the job thread
+    nodes = {}
+
     def mk_tracer(name):
         st = dict(n=0, on=False, plan=sorted(plan.get(name, [])), lines=set())
         counters[name] = st
@@ -110,8 +125,18 @@ def one_run(case, plan, seed):
                     loc = '%s:%d' % (frame.f_code.co_filename.rsplit('/', 1)[-1], frame.f_lineno)
                     n0 = len(W.bus.delivered)
                     t0 = sim.now
+                    js = nodes[name].job_state if rx and name in nodes else None
+                    w0 = len(js.waits) if js is not None else 0
+                    if rx and name in nodes:
+                        # make sure the job thread of this stack makes passes while the handler is suspended (on its own it sleeps until the
+                        # next deadline it knows of): an unrelated one-shot application timer, added now, due in the middle of the hold
+                        nodes[name].ecu.add_timer(hold / 2, lambda cookie: False)
                     sim.block_current(until=sim.now + hold, jitter=False)
-                    got = sum(1 for (t, nm, idx) in W.bus.delivered[n0:] if nm == name)
+                    if rx:
+                        # non-trivial = the job thread of the same stack ran (finished at least one pass) while the handler was suspended
+                        got = (len(js.waits) - w0) if js is not None else 0
+                    else:
+                        got = sum(1 for (t, nm, idx) in W.bus.delivered[n0:] if nm == name)
                     info['where'].append((name, k, loc, got))
                     if got:
                         info['overlap'] += 1
@@ -126,11 +151,15 @@ def one_run(case, plan, seed):
             return local
         return tracer
 
-    sim.trace_hook = mk_tracer('A')
     kw = dict(max_cmdt_packets=w)
     if case.get('dt_interval') is not None:
         kw['minimum_tp_rts_cts_dt_interval'] = case['dt_interval']
-    A = W.stack('A', **kw)
+    if rx:
+        A = W.stack('A', rx_thread=True, rx_trace=mk_tracer('A'), **kw)
+    else:
+        sim.trace_hook = mk_tracer('A')
+        A = W.stack('A', **kw)
+    nodes['A'] = A
     rng = random.Random(seed)
     pay = [rng.randrange(256) for _ in range(size)]
     ca = W.ca(A, 0x10, identity_number=1)
@@ -152,9 +181,13 @@ def one_run(case, plan, seed):
                 R.plan.append(mode[2:])
                 W.call('send', ca.send_pgn, 0, 0xD0, RA, 6, list(pay))
     else:
-        sim.trace_hook = mk_tracer('B')
-        B = W.stack('B', **kw)
+        if rx:
+            B = W.stack('B', rx_thread=True, rx_trace=mk_tracer('B'), **kw)
+        else:
+            sim.trace_hook = mk_tracer('B')
+            B = W.stack('B', **kw)
         sim.trace_hook = None
+        nodes['B'] = B
         cb = W.ca(B, 0x20, identity_number=2)
         W.listen_ca(cb, 'B')
         if mode == 'cmdt2':
@@ -242,7 +275,7 @@ def judge(case, r, viol, what, obs):
 
 def run_case(case):
     viol = M.Violations()
-    obs = dict(preempted_runs=0, holds_overlapping_reception=0, distinct_lines_max=0, line_events_baseline=0)
+    obs = dict(preempted_runs=0, rx_preempted_runs=0, holds_overlapping_reception=0, distinct_lines_max=0, line_events_baseline=0)
     base = one_run(case, {}, case['seed'])
     judge(case, base, viol, 'baseline', obs)
     nA, nB = base['n']['A'], base['n']['B']
@@ -259,11 +292,13 @@ def run_case(case):
             r = one_run(case, {node: [(k, case['hold'])]}, case['seed'])
             obs['preempted_runs'] += 1
             obs['holds_overlapping_reception'] += r['info']['overlap']
-            judge(case, r, viol, '%s %s traced=%s w=%d hold=%.4f k=%d' % (case['layer'], case['mode'], node, case['w'], case['hold'], k), obs)
+            judge(case, r, viol, '%s %s traced=%s%s w=%d hold=%.4f k=%d' % (case['layer'], case['mode'], node, ' (receive thread)' if case.get('thread') == 'rx' else '', case['w'], case['hold'], k), obs)
+            if case.get('thread') == 'rx':
+                obs['rx_preempted_runs'] = obs.get('rx_preempted_runs', 0) + 1
             for w in r['info']['where']:
                 points.append(w[2])
             r['W'].close()
-        sig = repr((case['layer'], case['mode'], case['role'], case['w'], tuple(case['lat']), case['hold']))
+        sig = repr((case.get('thread', 'job'), case['layer'], case['mode'], case['role'], case['w'], tuple(case['lat']), case['hold']))
     elif case['kind'] == 'pairs':
         node = 'A' if case['role'] == 'orig' else 'B'
         N = base['n'][node]
